@@ -10,6 +10,7 @@ import (
 	"time"
 
 	"github.com/ThreeDotsLabs/watermill/message"
+	"github.com/ThreeDotsLabs/watermill/zzverif/models"
 	"github.com/ThreeDotsLabs/watermill/zzverif/vrt"
 )
 
@@ -114,6 +115,66 @@ func (l *lockedPublisher) Publish(topic string, msgs ...*message.Message) error 
 }
 func (l *lockedPublisher) Close() error { return nil }
 
+// HarnessC14Defaults: a Deduplicator used with its defaults (nil *Deduplicator, or a zero value whose fields
+// are filled in) remembers keys across messages like an explicitly configured one: of two (three) messages
+// with equal payloads presented one after the other, or two concurrently, exactly one gets through.
+func HarnessC14Defaults() {
+	models.TickerTicks = 1
+	var d *Deduplicator
+	if vrt.Bool("zero.value") {
+		d = &Deduplicator{}
+	}
+	viaPublisher := vrt.Bool("via.publisher")
+	concurrent := vrt.Bool("concurrent")
+	var mu sync.Mutex
+	passed := 0
+	var h message.HandlerFunc
+	var pub message.Publisher
+	inner := &recPublisher{}
+	if viaPublisher {
+		p, err := d.PublisherDecorator()(&lockedPublisher{p: inner})
+		vrt.Assert(err == nil, "decorated")
+		pub = p
+	} else {
+		h = d.Middleware(func(m *message.Message) ([]*message.Message, error) {
+			mu.Lock()
+			passed++
+			mu.Unlock()
+			return nil, nil
+		})
+	}
+	present := func(i int) {
+		m := message.NewMessage("m"+strconv.Itoa(i), message.Payload("same payload"))
+		if viaPublisher {
+			vrt.Assert(pub.Publish("t", m) == nil, "publish succeeds")
+		} else {
+			_, err := h(m)
+			vrt.Assert(err == nil, "duplicates are dropped as successes")
+		}
+	}
+	if concurrent {
+		done := make(chan struct{}, 2)
+		for i := 0; i < 2; i++ {
+			i := i
+			go func() { present(i); done <- struct{}{} }()
+		}
+		<-done
+		<-done
+	} else {
+		for i := 0; i < 3; i++ {
+			present(i)
+		}
+	}
+	got := passed
+	if viaPublisher {
+		got = 0
+		for _, c := range inner.calls {
+			got += len(c.msgs)
+		}
+	}
+	vrt.Assert(got == 1, "among messages with the same key exactly one gets through, also with the default repository and hasher")
+}
+
 func HarnessC14Once2()    { c14Once(2, false) }
 func HarnessC14Once3()    { c14Once(3, false) }
 func HarnessC14OncePub2() { c14Once(2, true) }
@@ -131,6 +192,16 @@ func HarnessC14Window() {
 	vrt.Assert(err == nil && !dup, "first arrival is accepted")
 	lastTick := t1
 	ticked := false
+	if vrt.Bool("duplicate.in.between") {
+		// a duplicate arriving in the meantime is dropped and must not extend the retention of the key
+		vrt.Advance()
+		tm := time.Now()
+		dupm, err := kr.IsDuplicate(context.Background(), "k")
+		vrt.Assert(err == nil, "no error")
+		if tm.Sub(t1) < window {
+			vrt.Assert(dupm, "a key is remembered for at least the configured window")
+		}
+	}
 	for i := 0; i < 2; i++ {
 		vrt.Advance()
 		if vrt.Bool("tick" + strconv.Itoa(i)) {
